@@ -126,6 +126,11 @@ def run_case(case, ctx):
     compare(ctx, D, cp0, fc0, 0, "hom_deg=0 of [D, decoy]", "landscape-value-homdeg")
     _, cp1, fc1 = build(ctx, [decoy, np.array(D, dtype=float)], 1)
     compare(ctx, D, cp1, fc1, 0, "hom_deg=1 of [decoy, D]", "landscape-value-homdeg")
+    # an EMPTY diagram in a lower degree must not shift the selection
+    _, cpe, fce = build(ctx, [np.zeros((0, 2)), np.array(D, dtype=float), decoy], 1)
+    compare(ctx, D, cpe, fce, 0, "hom_deg=1 of [empty, D, decoy]", "landscape-value-homdeg")
+    _, cpe2, fce2 = build(ctx, [np.zeros((0, 2)), decoy, np.array(D, dtype=float)], 2)
+    compare(ctx, D, cpe2, fce2, 0, "hom_deg=2 of [empty, decoy, D]", "landscape-value-homdeg")
     # exact integer translations: negative births, a bar born at exactly 0, large offsets (tolerance 0)
     for c in (-1.0, -2.0, -3.0, -5.0, 1048576.0):
         D3 = [[b + c, dd + c] for b, dd in D]
